@@ -9,7 +9,8 @@ from tables import ExtractError, fp, lean_str, parse, table
 # C17: dask/config.py
 # ---------------------------------------------------------------------------------------------
 fp("dask/config.py", "canonical_name", "update", "merge", "collect_env", "interpret_value", "get",
-   "set.__init__", "set.__exit__", "set._assign", "check_deprecations", "serialize", "deserialize")
+   "set.__init__", "set.__exit__", "set._assign", "check_deprecations", "serialize", "deserialize",
+   "update_defaults", "refresh", "collect", "pop", "expand_environment_variables")
 
 
 def _toplevel_value(tree, name):
@@ -56,7 +57,37 @@ fp("dask/utils.py", "SerializableLock.__init__", "SerializableLock.__getstate__"
    "SerializableLock.acquire", "SerializableLock.release")
 fp("dask/rewrite.py", "head", "args", "Traverser.next", "Traverser.skip", "Traverser.copy", "RewriteRule.__init__",
    "RewriteRule._apply", "RuleSet.add", "RuleSet.iter_matches", "RuleSet._rewrite", "_bottom_up", "_match",
-   "_process_match", "_instantiates", "_substitute")
+   "_process_match", "_instantiates", "_substitute", "RuleSet.rewrite", "_top_level")
+
+@table("RewriteTables")
+def rewrite_tables(repo):
+    """`strategies = {"top_level": _top_level, "bottom_up": _bottom_up}` and the default of `RuleSet.rewrite(strategy=)`"""
+    tree = parse(repo, "dask/rewrite.py")
+    node = _toplevel_value(tree, "strategies")
+    if not isinstance(node, ast.Dict):
+        raise ExtractError("dask.rewrite.strategies is no longer a dict literal")
+    rows = []
+    for k, v in zip(node.keys, node.values):
+        if not (isinstance(k, ast.Constant) and isinstance(k.value, str) and isinstance(v, ast.Name)):
+            raise ExtractError("dask.rewrite.strategies: expected {str: function name}")
+        rows.append((k.value, v.id))
+    from tables import find_def
+    fn = find_def(tree, "RuleSet.rewrite")
+    names = [a.arg for a in fn.args.args]
+    if names != ["self", "task", "strategy"] or len(fn.args.defaults) != 1 or \
+            not (isinstance(fn.args.defaults[0], ast.Constant) and isinstance(fn.args.defaults[0].value, str)):
+        raise ExtractError("RuleSet.rewrite: expected (self, task, strategy='<name>')")
+    body = [n for n in fn.body if not (isinstance(n, ast.Expr) and isinstance(n.value, ast.Constant))]
+    if len(body) != 1 or not isinstance(body[0], ast.Return) or ast.unparse(body[0].value) != "strategies[strategy](self, task)":
+        raise ExtractError("RuleSet.rewrite: body is no longer `return strategies[strategy](self, task)`")
+    return ("namespace Dask.Generated.RewriteTables\n\n"
+            "/-- `dask.rewrite.strategies`: strategy name ↦ name of the function implementing it -/\n"
+            "def strategies : List (String × String) := [" +
+            ", ".join(f"({lean_str(k)}, {lean_str(v)})" for k, v in rows) + "]\n\n"
+            "/-- default of `RuleSet.rewrite(task, strategy=…)` -/\n"
+            f"def defaultStrategy : String := {lean_str(fn.args.defaults[0].value)}\n\n"
+            "end Dask.Generated.RewriteTables\n")
+
 
 # ---------------------------------------------------------------------------------------------
 # C18: dask/utils.py  format_bytes / parse_bytes / parse_timedelta tables
